@@ -52,6 +52,16 @@ class Translator:
             self.prog = parse(SourceCode.from_string(src)).evaluate(self.env)
         except CompilerError as e:
             raise hidc_api.Rejected(e)
+        # "preemptive" is a property of the program TEXT (README: a defeat function that contains a preempt block
+        # anywhere in it, reachable or not): read it off the untyped parse tree, not off the flag the compiler keeps
+        self.preemptive_names = set()
+        try:
+            raw = parse(SourceCode.from_string(src))
+            for f in raw.func_decls:
+                if self.has_preempt(f.body):
+                    self.preemptive_names.add((f.name, f.param_types))
+        except CompilerError:
+            pass
         self.strings = []          # literal string table (bytes)
         self.string_ids = {}
         self.globals = {}          # name -> (index, decl)
@@ -73,6 +83,23 @@ class Translator:
             raise Unsupported('no unique @is_you')
         self.main = mains[0] + 1
         self.main_decl = self.fdecls[mains[0]]
+
+    def has_preempt(self, node):
+        A = self.A
+        if isinstance(node, A.PreemptBlock):
+            return True
+        if isinstance(node, A.CodeBlock):
+            return any(self.has_preempt(s) for s in node.stmts)
+        if isinstance(node, A.TryBlock):
+            # a try block is its own arena (you-functions only; it never makes the function preemptive)
+            return False
+        if isinstance(node, A.IfBlock):
+            return self.has_preempt(node.body) or self.has_preempt(node.else_block)
+        if isinstance(node, A.LoopBlock):
+            return self.has_preempt(node.body) or self.has_preempt(node.cont)
+        if isinstance(node, A.ControlBlock):
+            return self.has_preempt(node.body)
+        return False
 
     # ------------------------------------------------------------------ helpers
     def sid(self, data):
@@ -103,7 +130,7 @@ class Translator:
         if not isinstance(f.body, A.CodeBlock):
             raise Unsupported('function body')
         body = self.stmts(f.body.stmts, Scope(scope))
-        pre = bool(f.body.preemptive) and f.name.flavor == A.Flavor.DEFEAT
+        pre = (f.name, f.param_types) in self.preemptive_names and f.name.flavor == A.Flavor.DEFEAT
         if pre:
             self.features.add('preemptive_fn')
         return T('Func', str(f.name), len(f.params), self.nslots, pre, f.ret_type != A.DataType.EMPTY, body)
